@@ -1788,6 +1788,13 @@ func enumCrashHistories(r *rng, nproj int, maxLabels int) []*History {
 				if f := force(l); f != nil {
 					mk("re-execution, "+h, rebuild, *f, crash("run", h, l), rebuild)
 				}
+				// re-execution that no changed input of `l` explains (a forced build, `-B`): the old record still
+				// matches every input afterwards, so only what the interrupted build left on disk can tell the next
+				// build that the outputs of `l` are not the ones that record describes (seeded change C01-r1)
+				ca := crash("run", h, l)
+				ca.Always = true
+				ca.Note += ", forced build"
+				mk("forced re-execution, "+h, rebuild, ca, rebuild)
 			}
 		}
 		for _, l := range srcs {
